@@ -14,7 +14,7 @@ TInit == l = 1 /\ rs = RInit(<<>>) /\ viol = {} /\ nev = 0
 GuardsOf(e) ==
     IF e.ev = "add" THEN GuardsAdd(rs, e)
     ELSE IF e.ev = "modules" THEN GuardsModules(rs, e)
-    ELSE IF e.ev = "q" THEN GuardsQ(rs, e, {"C17"})
+    ELSE IF e.ev = "q" THEN GuardsQ(rs, e, IF e.after = "modules" THEN {"C17", "C20"} ELSE {"C17"})
     ELSE IF e.ev = "built" THEN GuardsBuilt(rs, e, {"C17"})
     ELSE IF e.ev = "probe" THEN GuardsProbe(rs, e)
     ELSE IF e.ev = "twin" THEN GuardsTwin(e)
